@@ -7,6 +7,7 @@ import LP.Driver.Poly
 import LP.Driver.Refs
 import LP.Driver.Roots
 import LP.Driver.Alg
+import LP.Driver.Value
 import Std.Data.HashMap
 open LP LP.Driver
 
@@ -39,6 +40,7 @@ def checkLine (line : String) : String × String × Verdict :=
         | "res" => checkRes op args r
         | "roots" => checkRoots op args r
         | "alg" => checkAlg op args r
+        | "val" => checkVal op args r
         | "ugcd" => checkUGcd op args r
         | "refs" => checkRefs args r
         | _ => Verdict.skip s!"unknown family {fam}"
